@@ -314,7 +314,8 @@ def subscript_args(env, name, obj):
     I, S, NT, E = ["b", "int"], ["b", "str"], ["b", "NoneType"], ["b", "Ellipsis"]
     og = typing.get_origin(obj) or obj
     if og is tuple:
-        return [[I, S], [I, E], [I], []]
+        # ... and fixed tuples whose LAST member is an open position (Any, a free TypeVar): still fixed
+        return [[I, S], [I, E], [I], [], [I, ["b", "typing.Any"]], [S, I, ["tf"]]]
     if og is cabc.Callable:
         return [[I, S]]
     if name.startswith(("typing.Union", "typing.Optional", "typing.Literal", "typing.Final", "typing.ClassVar", "typing.Generic",
@@ -571,7 +572,7 @@ def oracle(env, inspection, o, spec):
     sf["istypealiastype"] = isinstance(o, typing.TypeAliasType)
     sf["issubscriptedgeneric"] = og is not None and not isinstance(o, typing._SpecialGenericAlias)
     sf["isfixedtupletype"] = bool(isinstance(og, type) and issubclass(og, tuple) and ar and ar[-1] is not Ellipsis)
-    sf["istypeddict"] = bool(typing.is_typeddict(o))
+    sf["istypeddict"] = bool(__import__("typing_extensions").is_typeddict(o))     # knows typing's and the backport's classes
     sf["isnamedtuple"] = bool(isinstance(o, type) and issubclass(o, tuple) and hasattr(o, "_fields"))
     sf["istypedtuple"] = bool(sf["isnamedtuple"] and getattr(o, "__annotations__", None))
     sf["isfrozendataclass"] = bool(dataclasses.is_dataclass(o) and isinstance(o, type) and o.__dataclass_params__.frozen)
